@@ -32,10 +32,14 @@ REGISTRY = dict(
           "new snapshot, so resume's is_file()+pickle.load succeeds (CrashSafe, autosave_survives_crash); the invariant "
           "survives arbitrary interleavings of completed saves, crashed saves and restarts (loadable_forever). The variant with os.replace inside the `with` block (rename before the flush) has a kernel-checked counterexample (killed "
           "after the rename: truncated pickle under the advertised name, previous snapshot gone) although its undisturbed runs "
-          "end in the same directory. The "
+          "end in the same directory. Exception semantics (unwindStates: the handler runs on the directory the exception leaves): the current code has no handler and "
+          "is safe; os.replace in a finally: clause has a kernel-checked counterexample (exception inside the write, truncated .new renamed "
+          "over the last good snapshot). KNOWN FINDING on the unchanged tree (autosave-suffix-new-in-place, Props.C27.aliased_counterexample, "
+          "replayed on every run): a back-end resumed from a file whose suffix is .new writes its autosaves in place. The "
           "three-step variant removed by commit 3262c67 is modelled separately with a kernel-checked counterexample "
           "(nothing under the advertised name between the two renames). Model tied to the code by exact comparison of "
-          "the operation trace and of the directory after an exception injected at every operation and inside the write, and by "
+          "the operation trace and of the directory after an exception (Crash(BaseException), OSError ENOSPC, MemoryError, KeyboardInterrupt) "
+          "injected at every operation and raised by the file object's write after 0 %, 50 % and all but one byte of pickle.dump, and by "
           "real process kills (forked child, os._exit immediately before/after every interposed call) with a >= 300 kB and a tiny snapshot."),
     note=("Trusted: Lean kernel + propext/Quot.sound; hand-written Model.Autosave tied by the trace/crash-injection "
           "correspondence only; crash = exception at, or os._exit(9) of a forked child immediately before/after, an interposed call "
@@ -130,30 +134,42 @@ def save_level(rep: Report, cx: Ctx, rng, sysd, reorder, n_saves, leftovers_full
                     cx.ask(f"autosave.ops threeStep {prev} {lnew} {lbak} {j}", ("classify", ops, "threeStep"), {})
                     cx.ask(f"autosave.ops earlyReplace {prev} {lnew} {lbak} {j}", ("classify", ops, "earlyReplace"), {})
                     lab, nops = _event_to_label(events)
-                    points = [("before", i) for i, e in enumerate(events) if not e.startswith("close:")]
-                    points += [("mid", i) for i, e in enumerate(events) if e.startswith("dump:")]
-                    points.append(None)
+                    kinds = U.exception_kinds()
+                    full = (lnew, lbak) == ("a", "a")
+                    points = []          # (crash spec, exception kind index)
+                    for i, e in enumerate(events):
+                        if not e.startswith("close:"):
+                            points.append((("before", i), (i + j) % len(kinds)))
+                        if e.startswith("dump:"):
+                            # exceptions raised by the file object's write in the MIDDLE of pickle.dump: after 0 bytes,
+                            # half, all but one; every exception kind (Exception and bare BaseException subclasses)
+                            for fi, frac in enumerate((0.0, 0.5, 1.0)):
+                                for ki in (range(len(kinds)) if full else [(fi + j) % len(kinds)]):
+                                    points.append((("mid", i, frac), ki))
+                    points.append((None, 0))
                     real_states = {}
-                    for pt in points:
+                    for pt, ki in points:
                         reset()
                         ip.crash = pt
+                        ip.exc = kinds[ki][1]
                         label = f"b{nops}" if pt is None else (("b" if pt[0] == "before" else "m") + str(lab[pt[1]]))
-                        crashed = False
-                        try:
-                            impl.save_simulation()
-                        except U.Crash:
-                            crashed = True
-                        except Exception as e:  # the real code raising by itself
-                            rep.fail(f"save_simulation raised {type(e).__name__}: {e}",
+                        status, err = U.run_injected(ip, impl.save_simulation)
+                        if status == "raised":  # the real code raising by itself
+                            rep.fail(f"save_simulation raised {type(err).__name__}: {err}",
                                      dict(system=sysd, save=j, leftovers=(lnew, lbak), crash_point=str(pt)))
                             continue
+                        crashed = status == "crash"
+                        if crashed and err is not None and not isinstance(err, type(kinds[ki][1](""))):
+                            rep.count("injected_exception_replaced_by_the_code")
+                        rep.hist("exception_kind", kinds[ki][0] if pt is not None else "none")
                         if (pt is not None) != crashed:
                             rep.broke(f"harness could not inject crash point {pt} in autosave {j} (events {events})")
                             continue
-                        ip.crash = None
+                        ip.crash, ip.exc = None, None
                         st = U.dir_state(base)
-                        real_states[label] = st
-                        rep.case(key=(sysd["kind"], j, lnew, lbak, label),
+                        if real_states.setdefault(label, st) != st:
+                            real_states[label + "'"] = st      # a second, different state at the same model label
+                        rep.case(key=(sysd["kind"], j, lnew, lbak, label, str(pt), ki),
                                  sample={"save": j, "leftovers": [lnew, lbak], "crash_point": label,
                                          "event": None if pt is None else events[pt[1]], "dir": st})
                         rep.hist("crash_point", label)
@@ -161,16 +177,20 @@ def save_level(rep: Report, cx: Ctx, rng, sysd, reorder, n_saves, leftovers_full
                         b = st.split("/")[0]
                         data = dict(system=sysd, reorder=reorder, save=j, leftovers=[lnew, lbak], crash_point=label,
                                     crash_before_event=None if pt is None else events[pt[1]], mode=None if pt is None else pt[0],
+                                    exception=None if pt is None else kinds[ki][0], exception_index=ki,
+                                    fraction_of_bytes_written=pt[2] if pt is not None and len(pt) > 2 else None,
+                                    escaped=None if err is None else f"{type(err).__name__}: {err}"[:200],
                                     events_of_an_undisturbed_save=events, dir_base_new_bak=st)
                         if b not in (prev, f"c{j}"):
                             klass = WITNESS_CLASS if (b == "a" and any(e.startswith("rename:base") for e in events)) else None
-                            rep.fail(f"after a crash at {label} of autosave {j} the advertised file is "
+                            how = "a crash" if pt is None or pt[0] != "mid" else f"{kinds[ki][0]} raised inside pickle.dump (after {int(pt[2] * 100)}% of the bytes)"
+                            rep.fail(f"after {how} at {label} of autosave {j} the advertised file is "
                                      f"{'missing' if b == 'a' else 'not loadable' if b == 'p' else 'snapshot ' + b} "
                                      f"(directory base/.new/.bak = {st})", data, klass=klass)
                         if (j, lnew, lbak) in resume_for or b not in (prev, f"c{j}"):
                             ip.save_calls = int(b[1:]) if b.startswith("c") and b[1:].isdigit() else j
                             try:
-                                res = MPSBackend.resume(base)
+                                res = MPSBackend.resume(str(base) if ki % 2 else base)
                                 msg = U.diff_results(ref, U.canon_results(res)) if ref is not None else None
                                 if msg:
                                     rep.fail(f"resume after a crash at {label} of autosave {j} differs from the uninterrupted run: {msg}", data)
@@ -185,6 +205,7 @@ def save_level(rep: Report, cx: Ctx, rng, sysd, reorder, n_saves, leftovers_full
                     skip = {f"b{i}" for i, e in enumerate(events) if e.startswith("close:")}
                     cx.ask(f"autosave.crash current {prev} {lnew} {lbak} {j}", ("states", real_states, skip, "exact"),
                            dict(what=f"crash states of autosave {j}", leftovers=(lnew, lbak), events=events))
+                    cx.ask(f"autosave.unwind {prev} {lnew} {lbak} {j}", ("classify_unwind", real_states), {})
                 reset()
                 U.put_file(base, f"c{j}", blobs)
                 ip.save_calls = j
@@ -218,6 +239,8 @@ def kill_points(events, essential: bool = False):
             if e.startswith(("replace:", "rename:", "remove:")):
                 pts.append((("kill_before", i), f"b{i}", f"immediately before {e}"))
                 pts.append((("kill_after", i), f"b{i + 1}", f"immediately after {e}"))
+        if essential == "min":       # tiny snapshot in the quick tier: after the dump and after each move
+            pts = [x for x in pts if x[0][0] == "kill_after"]
         return pts
     pts = []
     for i, e in enumerate(events):
@@ -368,41 +391,51 @@ def loop_level(rep: Report, cx: Ctx, rng, sysd, reorder, ref, n_scen):
             ip.schedule = lambda k: 100.0 * k
             j = rng.randint(2, 5)
             pt = rng.choice([("before", 0), ("before", 1), ("mid", 1), ("before", 3)])
+            kinds = U.exception_kinds()
+            kname, ip.exc = kinds[(sc + j) % len(kinds)]
             ip.crash, ip.crash_save = pt, j
-            data = dict(system=sysd, reorder=reorder, crash_in_autosave=j, crash_point=list(pt), scenario="loop")
+            data = dict(system=sysd, reorder=reorder, crash_in_autosave=j, crash_point=list(pt), exception=kname, scenario="loop")
             with U.fake_time(clock, also_backend=True), ip.installed():
-                try:
-                    MPSBackend._run_from_sequence_data(U.make_data(sysd), U.make_config(sysd, reorder, bitstrings=False))
+                status, err = U.run_injected(ip, lambda: MPSBackend._run_from_sequence_data(
+                    U.make_data(sysd), U.make_config(sysd, reorder, bitstrings=False)))
+                if status == "ok":
                     rep.count("loop_crash_not_reached")
                     continue
-                except U.Crash:
-                    pass
+                if status == "raised":
+                    rep.fail(f"run with autosaves raised {type(err).__name__}: {err}", data)
+                    continue
                 base = ip.base
                 st = U.dir_state(base)
                 data["dir_base_new_bak"] = st
-                rep.case(key=("loop", sysd["kind"], j, pt), sample={"loop_crash": [j, list(pt)], "dir": st})
+                data["escaped"] = None if err is None else f"{type(err).__name__}: {err}"[:200]
+                rep.case(key=("loop", sysd["kind"], j, pt, kname), sample={"loop_crash": [j, list(pt)], "exception": kname, "dir": st})
                 second = sc % 2 == 1
+                b = st.split("/")[0]
+                if not (b.startswith("c") and b[1:].isdigit()):
+                    klass = WITNESS_CLASS if b == "a" and any(ev.startswith("rename:base") for ev in ip.all_events) else None
+                    rep.fail(f"after {kname} at {list(pt)} of autosave {j} inside the run loop the advertised file is "
+                             f"{'missing' if b == 'a' else 'not loadable'} (directory base/.new/.bak = {st})", data, klass=klass)
+                    continue
                 try:
-                    b = st.split("/")[0]
-                    ip.save_calls = int(b[1:]) if b[1:].isdigit() else j
+                    ip.save_calls = int(b[1:])
                     ip.fired = False
                     if second:
                         j2 = ip.save_calls + 2   # the first save_simulation after a restart is never due (last_save_time = now)
                         ip.crash, ip.crash_save = rng.choice([("mid", 1), ("before", 3)]), j2
                         data["second_crash_in_autosave"] = j2
-                        try:
-                            MPSBackend.resume(base)
+                        status, err = U.run_injected(ip, lambda: MPSBackend.resume(str(base)))
+                        if status == "ok":
                             rep.count("second_crash_not_reached")
                             continue
-                        except U.Crash:
-                            pass
+                        if status == "raised":
+                            raise err
                         st2 = U.dir_state(base)
                         data["dir_after_second_crash"] = st2
                         b2 = st2.split("/")[0]
                         ip.save_calls = int(b2[1:]) if b2[1:].isdigit() else j2
                         rep.count("double_crash_scenarios")
-                    ip.crash, ip.crash_save = None, None
-                    res = MPSBackend.resume(base)
+                    ip.crash, ip.crash_save, ip.exc, ip.fired = None, None, None, False
+                    res = MPSBackend.resume(base if sc % 2 else str(base))
                 except Exception as e:
                     klass = WITNESS_CLASS if "Not a file" in str(e) and any(ev.startswith("rename:base") for ev in ip.all_events) else None
                     rep.fail(f"MPSBackend.resume(base) after a crash inside the run loop raised {type(e).__name__}: {e}", data, klass=klass)
@@ -414,6 +447,52 @@ def loop_level(rep: Report, cx: Ctx, rng, sysd, reorder, ref, n_scen):
                 if base.exists():
                     rep.fail("autosave file still present after the resumed run finished", dict(data, listing=left))
                 rep.count("loop_crash_resumes")
+
+
+ALIAS_CLASS = "autosave-suffix-new-in-place"
+
+
+def aliased_level(rep: Report, cx: Ctx, sysd, reorder):
+    """Known finding (unchanged tree): `MPSBackend.resume` of a file whose suffix is `.new` — e.g. the complete
+    `.new` left by a crash between close and rename — makes `autosave_file.with_suffix(".new") == autosave_file`, so
+    every later autosave is written in place; an exception inside the write truncates the advertised file.
+    Replays the Lean witness `Props.C27.aliased_counterexample` on the real code."""
+    import shutil as _sh
+    from harness import autosave_util as U
+    from emu_mps.mps_backend import MPSBackend
+    from emu_mps.mps_backend_impl import create_impl
+
+    with U.workdir() as tmp:
+        clock = U.FakeClock(0.0)
+        ip = U.Interposer()
+        ip.clock = clock
+        ip.schedule = lambda k: 100.0 * k
+        with U.fake_time(clock, also_backend=True), ip.installed():
+            impl = create_impl(U.make_data(sysd), U.make_config(sysd, reorder, bitstrings=False))
+            impl.init()
+            impl.progress()
+            impl.progress()
+            base = Path(impl.autosave_file)
+            left = base.with_suffix(".new")
+            _sh.copy(base, left)                 # directory state b3 of the model: complete .new next to the old base
+            ip.save_calls, clock.now = 2, 200.0
+            ip.crash, ip.crash_save = ("mid", 1, 0.5), 4
+            status, err = U.run_injected(ip, lambda: MPSBackend.resume(left))
+            if status != "crash":
+                rep.count("aliased_witness_not_reached")
+                return
+            st = U.file_state(left)
+            third = ip.per_save[-2] if len(ip.per_save) >= 2 else []
+            rep.case(key=("aliased", sysd["kind"]), sample={"resumed_from": "<autosave>.new", "events_of_autosave_3": third,
+                                                             "advertised_after_crash_in_autosave_4": st})
+            cx.ask("autosave.aliased c3 4", ("aliased", st, U.canon_ops(third, 3)), dict(events=third))
+            if st not in ("c3", "c4"):
+                rep.fail(f"resumed from a file named *.new: autosaves are written in place ({third}); after an exception inside "
+                         f"the write of autosave 4 the advertised file is {'missing' if st == 'a' else 'not loadable'} "
+                         f"(the stale base still holds snapshot {U.file_state(base)})",
+                         dict(system=sysd, reorder=reorder, resumed_from="<autosave>.new (suffix .new)", crash_in_autosave=4,
+                              crash="exception inside pickle.dump after 50% of the bytes", events_of_autosave_3=third,
+                              advertised_file=st), klass=ALIAS_CLASS)
 
 
 def world_level(rep: Report, cx: Ctx, rng, sysd, reorder, n_runs):
@@ -469,7 +548,7 @@ def settle(rep: Report, cx: Ctx):
     except LeanError as e:
         rep.broke("driver: " + str(e)[-800:])
         return
-    matches_three = matches_early = matches_cur = total_traces = 0
+    matches_three = matches_early = matches_cur = total_traces = matches_finally = n_unwind = 0
     for (line, real, ctx), mo in zip(cx.q, out):
         if isinstance(real, tuple) and real[0] == "classify":
             if real[1] is not None and ",".join(real[1]) == mo:
@@ -478,12 +557,26 @@ def settle(rep: Report, cx: Ctx):
                 else:
                     matches_early += 1
             continue
+        if isinstance(real, tuple) and real[0] == "aliased":
+            model = dict(x.split("=") for x in mo.split(";"))
+            want = "open:base,write:base:3,close:base:3,replace:base:base"
+            if real[2] and ",".join(real[2]) == want and model.get("m1", "").split("/")[0] != real[1]:
+                rep.broke(f"correspondence in-place save (resumed from *.new): model m1 {model.get('m1')} real advertised file {real[1]}")
+            rep.extra["resume_from_dot_new_writes_in_place"] = bool(real[2]) and ",".join(real[2]) == want
+            continue
+        if isinstance(real, tuple) and real[0] == "classify_unwind":
+            model = dict(x.split("=") for x in mo.split(";"))
+            n_unwind += 1
+            # only crash points inside the protected body (an exception injected at the rename itself prevents the rename)
+            body = {l: st for l, st in real[1].items() if l.rstrip("'") in ("b0", "b1", "m1")}
+            matches_finally += bool(body) and all(model.get(l.rstrip("'")) == st for l, st in body.items())
+            continue
         if isinstance(real, tuple) and real[0] == "states":
             model = dict(x.split("=") for x in mo.split(";"))
             for lab, st in real[1].items():
-                if not _state_ok(model.get(lab), st, real[3]):
+                if not _state_ok(model.get(lab.rstrip("'")), st, real[3]):
                     rep.broke(f"correspondence crash state: {line} at {lab}: model {model.get(lab)} real {st} ({json.dumps(ctx, default=str)[:300]})")
-            missing = set(model) - set(real[1]) - set(real[2])
+            missing = set(model) - {l.rstrip("'") for l in real[1]} - set(real[2])
             if missing and real[1]:
                 rep.broke(f"correspondence crash state: {line}: model crash points {sorted(missing)} were not reachable on the real code")
             continue
@@ -506,6 +599,11 @@ def settle(rep: Report, cx: Ctx):
     rep.extra["traces_matching_current_model"] = f"{matches_cur}/{total_traces}"
     rep.extra["traces_matching_threeStep_model"] = matches_three
     rep.extra["traces_matching_earlyReplace_model"] = matches_early
+    rep.extra["exception_states_matching_finallyReplace_model"] = f"{matches_finally}/{n_unwind}"
+    if n_unwind and matches_finally == n_unwind and any("crash state" in b for b in rep.broken):
+        rep.notes.append("the directories left by injected exceptions match the `try: … finally: os.replace(.new, base)` variant of the "
+                         "model (unwindStates finallyBody finallyCleanup): Props.C27.finallyReplace_counterexample applies "
+                         "(exception inside the write, truncated .new renamed over the last good snapshot)")
     if matches_cur < total_traces and matches_early >= total_traces - matches_cur and total_traces:
         rep.notes.append("the real operation traces match the early-replace variant (saveEarlyReplace: os.replace inside the "
                          "`with` block) of the model: Props.C27.earlyReplace_counterexample applies (process killed at b3, "
@@ -565,8 +663,11 @@ def check(rep: Report, tier: str, seed: int) -> None:
         if ki == 0 or not quick:
             # real process kills: a padded (>= 300 kB) and a tiny snapshot
             kill_level(rep, cx, rng, sysd, reorder, ref, pad=PAD_BYTES, n_saves=2 if quick else 4, resume_all=not quick, essential=quick)
-            kill_level(rep, cx, rng, sysd, reorder, ref, pad=0, n_saves=2 if quick else 3, resume_all=False, essential=quick)
+            kill_level(rep, cx, rng, sysd, reorder, ref, pad=0, n_saves=2 if quick else 3, resume_all=False, essential="min" if quick else False)
         lap("kill_level")
+        if ki == 0:
+            aliased_level(rep, cx, sysd, reorder)
+            lap("aliased_level")
         loop_level(rep, cx, rng, sysd, reorder, ref, n_scen=(1 if small else 2) if quick else 8)
         lap("loop_level")
         world_level(rep, cx, rng, sysd, reorder, n_runs=(1 if small else 2) if quick else 12)
@@ -641,12 +742,11 @@ def replay(rep: Report, path: str) -> int:
                     U.put_file(q, "a" if st == "a" else "p" if st == "p" else "c0", {0: old})
                 events = d["events_of_an_undisturbed_save"]
                 idx = next((i for i, e in enumerate(events) if e == d["crash_before_event"]), None)
-                ip.crash = None if idx is None else (d["mode"], idx)
+                ip.crash = None if idx is None else ((d["mode"], idx, d["fraction_of_bytes_written"]) if d.get("fraction_of_bytes_written") is not None else (d["mode"], idx))
+                ip.exc = U.exception_kinds()[d.get("exception_index", 0)][1]
                 ip.crash_save = j
-                try:
-                    impl.progress()
-                except U.Crash:
-                    pass
+                U.run_injected(ip, impl.progress)
+                ip.crash, ip.exc, ip.fired = None, None, False
                 st = U.dir_state(base)
                 ok = st.split("/")[0] in (f"c{j - 1}", f"c{j}")
                 try:
